@@ -228,6 +228,12 @@ pub fn gen_case(t: &mut Tape) -> Case {
     if dynamic && any_async {
         sups.push("Sync");
     }
+    // a marker supertrait that `Impl<T>` only has when `T` does: with a `dyn` selector nothing else implies it
+    // (the providers are `Send`; the `!Send` application then does not get the trait)
+    let send_super = dynamic && !any_async && t.chance(1, 4);
+    if send_super {
+        sups.push("Send");
+    }
     if dynamic {
         sups.push("'static");
     }
@@ -502,7 +508,7 @@ pub fn gen_case(t: &mut Tape) -> Case {
         probes.push(("::entrait::Impl<NsApp>", false));
     }
     if probe_not_send {
-        probes.push(("::entrait::Impl<NotSendApp>", true));
+        probes.push(("::entrait::Impl<NotSendApp>", !send_super));
     }
     for (ty, want) in probes {
         src.push_str(&format!("/*GEN*/ {{ let got = Probe::<{ty}>(PhantomData).has(); if got != {want} {{ fails.push(format!(\"`{ty}: Tr` is {{}} but should be {want}\", got)); }} }}\n"));
@@ -549,6 +555,9 @@ pub fn gen_case(t: &mut Tape) -> Case {
     }
     if selfless_impl_named {
         classes.push("associated_fn_whose_first_parameter_is_named___impl");
+    }
+    if send_super {
+        classes.push("send_supertrait_with_a_dyn_selector");
     }
     if recv_fragment {
         classes.push("receiver_type_from_a_macro_rules_ty_fragment");
